@@ -53,7 +53,7 @@ def cases(tier, seed):
         yield {"strategy": strategy, "scitype": ["tabular-regressor", "time-series-regressor"][int(rng.integers(0, 2))], "n": n, "wl": wl,
                "fh": fh, "nx": 0 if strategy == "dirrec" else int(rng.integers(0, 3)), "fh_in": ["fit", "both", "predict"][int(rng.integers(0, 3))],
                "off": int(rng.integers(-100, 10 ** 5)), "then": ["none", "update_refit", "update_norefit", "update_predict"][int(rng.integers(0, 4))],
-               "values": ["id", "random"][int(rng.integers(0, 2))], "dseed": int(rng.integers(0, 2 ** 31))}
+               "values": ["id", "random", "int-target"][int(rng.integers(0, 3))], "dseed": int(rng.integers(0, 2 ** 31))}
 
 
 def _series(case, total):
@@ -61,6 +61,10 @@ def _series(case, total):
     nx = case["nx"]
     if case["values"] == "id":
         S = [[1000.0 + t for t in range(total)]] + [[10000.0 * (j + 1) + t for t in range(total)] for j in range(nx)]
+    elif case["values"] == "int-target":
+        # integer-typed target (counts), real-valued exogenous variables: the window must carry both unchanged
+        rng = np.random.default_rng([case["dseed"], 55])
+        S = [[int(v) for v in rng.integers(-50, 500, size=total)]] + [list(np.round(rng.normal(0, 3, size=total), 6)) for _ in range(nx)]
     else:
         rng = np.random.default_rng([case["dseed"], 55])
         S = [list(np.round(rng.normal(0, 10, size=total), 6)) for _ in range(nx + 1)]
